@@ -312,8 +312,13 @@ def probe(G):
             pass
 
 
+CURRENT = None        # (class, edge_removal, history) being examined (for reports of unexpected exceptions)
+
+
 def run_history(cls, removal, history, on_call=None, probing=True):
     """(G, M, outcomes): the graph and model after the history; outcomes[i] = (outcome, expected)"""
+    global CURRENT
+    CURRENT = (cls, removal, history)
     G = new_graph(cls, removal)
     M = Model(cls == 'DynDiGraph', removal)
     outs = []
